@@ -29,11 +29,29 @@ type Hooks struct {
 	Log       func(p *Probe, m gen.MessageLog) error
 	Terminate func(p *Probe, reason error)
 
-	// serial-execution instrumentation (C01): shared by all incarnations
-	depth     atomic.Int32
+	SupInit        func(p *ProbeSup, args ...any) (act.SupervisorSpec, error)
+	ChildStart     func(p *ProbeSup, name gen.Atom, pid gen.PID) error
+	ChildTerminate func(p *ProbeSup, name gen.Atom, pid gen.PID, reason error) error
+	SupMessage     func(p *ProbeSup, from gen.PID, m any) error
+	SupCall        func(p *ProbeSup, from gen.PID, ref gen.Ref, req any) (any, error)
+	SupTerminate   func(p *ProbeSup, reason error)
+
+	PoolInit      func(p *ProbePool, args ...any) (act.PoolOptions, error)
+	PoolMessage   func(p *ProbePool, from gen.PID, m any) error
+	PoolCall      func(p *ProbePool, from gen.PID, ref gen.Ref, req any) (any, error)
+	PoolTerminate func(p *ProbePool, reason error)
+
+	MetaInit      func(m *ProbeMeta) error
+	MetaStart     func(m *ProbeMeta) error
+	MetaMessage   func(m *ProbeMeta, from gen.PID, msg any) error
+	MetaCall      func(m *ProbeMeta, from gen.PID, ref gen.Ref, req any) (any, error)
+	MetaTerminate func(m *ProbeMeta, reason error)
+
+	// serial-execution instrumentation (C01); depth and counter live in the
+	// per-process instance state, totals are accumulated here
 	Overlaps  atomic.Int32
 	Entered   atomic.Int32
-	counter   int // deliberately non-atomic read-modify-write
+	insts     []*inst
 	OverlapAt string
 	mu        sync.Mutex
 	Callbacks []string // callback log: names in order
@@ -44,14 +62,31 @@ type Hooks struct {
 type Probe struct {
 	act.Actor
 	H *Hooks
+	i *inst
 }
 
 func ProbeFactory(h *Hooks) gen.ProcessFactory {
-	return func() gen.ProcessBehavior { return &Probe{H: h} }
+	return func() gen.ProcessBehavior { return &Probe{H: h, i: h.newInst()} }
 }
 
-func (h *Hooks) enter(cb string) {
-	d := h.depth.Add(1)
+// inst is the per-process part of the instrumentation.
+type inst struct {
+	depth   atomic.Int32
+	entered atomic.Int32
+	counter int // deliberately non-atomic read-modify-write
+}
+
+func (h *Hooks) newInst() *inst {
+	i := &inst{}
+	h.mu.Lock()
+	h.insts = append(h.insts, i)
+	h.mu.Unlock()
+	return i
+}
+
+func (h *Hooks) enter(i *inst, cb string) {
+	d := i.depth.Add(1)
+	i.entered.Add(1)
 	h.Entered.Add(1)
 	if d != 1 {
 		h.Overlaps.Add(1)
@@ -69,18 +104,26 @@ func (h *Hooks) enter(cb string) {
 	h.Callbacks = append(h.Callbacks, cb)
 	h.mu.Unlock()
 	// non-atomic read-modify-write with a scheduling point in the middle
-	v := h.counter
+	v := i.counter
 	if h.Slow && h.Env != nil {
 		h.Env.Gate("cb:" + h.Name + ":" + cb)
 	}
-	h.counter = v + 1
+	i.counter = v + 1
 }
 
-func (h *Hooks) exit() { h.depth.Add(-1) }
+func (i *inst) exit() { i.depth.Add(-1) }
 
 // LostUpdates is the number of callback executions whose counter update was
-// overwritten by an overlapping callback.
-func (h *Hooks) LostUpdates() int { return int(h.Entered.Load()) - h.counter }
+// overwritten by an overlapping callback of the same process.
+func (h *Hooks) LostUpdates() int {
+	h.mu.Lock()
+	defer h.mu.Unlock()
+	n := 0
+	for _, i := range h.insts {
+		n += int(i.entered.Load()) - i.counter
+	}
+	return n
+}
 
 func (h *Hooks) CallbackLog() []string {
 	h.mu.Lock()
@@ -90,8 +133,8 @@ func (h *Hooks) CallbackLog() []string {
 
 func (p *Probe) Init(args ...any) error {
 	h := p.H
-	h.enter("init")
-	defer h.exit()
+	h.enter(p.i, "init")
+	defer p.i.exit()
 	p.SetTrapExit(h.Trap)
 	if h.Init != nil {
 		return h.Init(p, args...)
@@ -101,8 +144,8 @@ func (p *Probe) Init(args ...any) error {
 
 func (p *Probe) HandleMessage(from gen.PID, m any) error {
 	h := p.H
-	h.enter("message")
-	defer h.exit()
+	h.enter(p.i, "message")
+	defer p.i.exit()
 	if h.Message != nil {
 		return h.Message(p, from, m)
 	}
@@ -111,8 +154,8 @@ func (p *Probe) HandleMessage(from gen.PID, m any) error {
 
 func (p *Probe) HandleCall(from gen.PID, ref gen.Ref, req any) (any, error) {
 	h := p.H
-	h.enter("call")
-	defer h.exit()
+	h.enter(p.i, "call")
+	defer p.i.exit()
 	if h.Call != nil {
 		return h.Call(p, from, ref, req)
 	}
@@ -121,8 +164,8 @@ func (p *Probe) HandleCall(from gen.PID, ref gen.Ref, req any) (any, error) {
 
 func (p *Probe) HandleEvent(ev gen.MessageEvent) error {
 	h := p.H
-	h.enter("event")
-	defer h.exit()
+	h.enter(p.i, "event")
+	defer p.i.exit()
 	if h.Event != nil {
 		return h.Event(p, ev)
 	}
@@ -131,8 +174,8 @@ func (p *Probe) HandleEvent(ev gen.MessageEvent) error {
 
 func (p *Probe) HandleInspect(from gen.PID, item ...string) map[string]string {
 	h := p.H
-	h.enter("inspect")
-	defer h.exit()
+	h.enter(p.i, "inspect")
+	defer p.i.exit()
 	if h.Inspect != nil {
 		return h.Inspect(p, from, item...)
 	}
@@ -141,8 +184,8 @@ func (p *Probe) HandleInspect(from gen.PID, item ...string) map[string]string {
 
 func (p *Probe) HandleLog(m gen.MessageLog) error {
 	h := p.H
-	h.enter("log")
-	defer h.exit()
+	h.enter(p.i, "log")
+	defer p.i.exit()
 	if h.Log != nil {
 		return h.Log(p, m)
 	}
@@ -151,10 +194,241 @@ func (p *Probe) HandleLog(m gen.MessageLog) error {
 
 func (p *Probe) Terminate(reason error) {
 	h := p.H
-	h.enter("terminate")
-	defer h.exit()
+	h.enter(p.i, "terminate")
+	defer p.i.exit()
 	h.TermCount.Add(1)
 	if h.Terminate != nil {
 		h.Terminate(p, reason)
 	}
+}
+
+// ---- supervisor probe ----
+
+type ProbeSup struct {
+	act.Supervisor
+	H *Hooks
+	i *inst
+}
+
+func ProbeSupFactory(h *Hooks) gen.ProcessFactory {
+	return func() gen.ProcessBehavior { return &ProbeSup{H: h, i: h.newInst()} }
+}
+
+func (p *ProbeSup) Init(args ...any) (act.SupervisorSpec, error) {
+	h := p.H
+	h.enter(p.i, "init")
+	defer p.i.exit()
+	return h.SupInit(p, args...)
+}
+
+func (p *ProbeSup) HandleChildStart(name gen.Atom, pid gen.PID) error {
+	h := p.H
+	h.enter(p.i, "childstart")
+	defer p.i.exit()
+	if h.ChildStart != nil {
+		return h.ChildStart(p, name, pid)
+	}
+	return nil
+}
+
+func (p *ProbeSup) HandleChildTerminate(name gen.Atom, pid gen.PID, reason error) error {
+	h := p.H
+	h.enter(p.i, "childterminate")
+	defer p.i.exit()
+	if h.ChildTerminate != nil {
+		return h.ChildTerminate(p, name, pid, reason)
+	}
+	return nil
+}
+
+func (p *ProbeSup) HandleMessage(from gen.PID, m any) error {
+	h := p.H
+	h.enter(p.i, "message")
+	defer p.i.exit()
+	if h.SupMessage != nil {
+		return h.SupMessage(p, from, m)
+	}
+	return nil
+}
+
+func (p *ProbeSup) HandleCall(from gen.PID, ref gen.Ref, req any) (any, error) {
+	h := p.H
+	h.enter(p.i, "call")
+	defer p.i.exit()
+	if h.SupCall != nil {
+		return h.SupCall(p, from, ref, req)
+	}
+	return nil, nil
+}
+
+func (p *ProbeSup) HandleInspect(from gen.PID, item ...string) map[string]string {
+	h := p.H
+	h.enter(p.i, "inspect")
+	defer p.i.exit()
+	return map[string]string{"probe": h.Name}
+}
+
+func (p *ProbeSup) HandleEvent(ev gen.MessageEvent) error {
+	h := p.H
+	h.enter(p.i, "event")
+	defer p.i.exit()
+	return nil
+}
+
+func (p *ProbeSup) Terminate(reason error) {
+	h := p.H
+	h.enter(p.i, "terminate")
+	defer p.i.exit()
+	h.TermCount.Add(1)
+	if h.SupTerminate != nil {
+		h.SupTerminate(p, reason)
+	}
+}
+
+// ---- pool probe ----
+
+type ProbePool struct {
+	act.Pool
+	H *Hooks
+	i *inst
+}
+
+func ProbePoolFactory(h *Hooks) gen.ProcessFactory {
+	return func() gen.ProcessBehavior { return &ProbePool{H: h, i: h.newInst()} }
+}
+
+func (p *ProbePool) Init(args ...any) (act.PoolOptions, error) {
+	h := p.H
+	h.enter(p.i, "init")
+	defer p.i.exit()
+	return h.PoolInit(p, args...)
+}
+
+func (p *ProbePool) HandleMessage(from gen.PID, m any) error {
+	h := p.H
+	h.enter(p.i, "message")
+	defer p.i.exit()
+	if h.PoolMessage != nil {
+		return h.PoolMessage(p, from, m)
+	}
+	return nil
+}
+
+func (p *ProbePool) HandleCall(from gen.PID, ref gen.Ref, req any) (any, error) {
+	h := p.H
+	h.enter(p.i, "call")
+	defer p.i.exit()
+	if h.PoolCall != nil {
+		return h.PoolCall(p, from, ref, req)
+	}
+	return nil, nil
+}
+
+func (p *ProbePool) HandleInspect(from gen.PID, item ...string) map[string]string {
+	h := p.H
+	h.enter(p.i, "inspect")
+	defer p.i.exit()
+	return p.Pool.HandleInspect(from, item...)
+}
+
+func (p *ProbePool) HandleEvent(ev gen.MessageEvent) error {
+	h := p.H
+	h.enter(p.i, "event")
+	defer p.i.exit()
+	return nil
+}
+
+func (p *ProbePool) Terminate(reason error) {
+	h := p.H
+	h.enter(p.i, "terminate")
+	defer p.i.exit()
+	h.TermCount.Add(1)
+	if h.PoolTerminate != nil {
+		h.PoolTerminate(p, reason)
+	}
+}
+
+// ---- meta-process probe ----
+
+type ProbeMeta struct {
+	gen.MetaProcess
+	H    *Hooks
+	i    *inst
+	Stop chan error // Start returns what is received here
+	term chan struct{}
+	once sync.Once
+}
+
+func NewProbeMeta(h *Hooks) *ProbeMeta {
+	return &ProbeMeta{H: h, i: h.newInst(), Stop: make(chan error, 1), term: make(chan struct{})}
+}
+
+func (m *ProbeMeta) Init(process gen.MetaProcess) error {
+	h := m.H
+	h.enter(m.i, "init")
+	defer m.i.exit()
+	m.MetaProcess = process
+	if h.MetaInit != nil {
+		return h.MetaInit(m)
+	}
+	return nil
+}
+
+// Start is the meta-process' own loop; it is not one of the serialised callbacks.
+func (m *ProbeMeta) Start() error {
+	h := m.H
+	h.mu.Lock()
+	h.Callbacks = append(h.Callbacks, "start")
+	h.mu.Unlock()
+	if h.MetaStart != nil {
+		return h.MetaStart(m)
+	}
+	var err error
+	select {
+	case err = <-m.Stop:
+		if h.Env != nil {
+			h.Env.Gate("meta:" + h.Name + ":start-returns")
+		}
+	case <-m.term:
+		// like a real meta-process whose Terminate closes the resource Start is blocked on
+	}
+	return err
+}
+
+func (m *ProbeMeta) HandleMessage(from gen.PID, msg any) error {
+	h := m.H
+	h.enter(m.i, "message")
+	defer m.i.exit()
+	if h.MetaMessage != nil {
+		return h.MetaMessage(m, from, msg)
+	}
+	return nil
+}
+
+func (m *ProbeMeta) HandleCall(from gen.PID, ref gen.Ref, req any) (any, error) {
+	h := m.H
+	h.enter(m.i, "call")
+	defer m.i.exit()
+	if h.MetaCall != nil {
+		return h.MetaCall(m, from, ref, req)
+	}
+	return nil, nil
+}
+
+func (m *ProbeMeta) HandleInspect(from gen.PID, item ...string) map[string]string {
+	h := m.H
+	h.enter(m.i, "inspect")
+	defer m.i.exit()
+	return map[string]string{"probe": h.Name}
+}
+
+func (m *ProbeMeta) Terminate(reason error) {
+	h := m.H
+	h.enter(m.i, "terminate")
+	defer m.i.exit()
+	h.TermCount.Add(1)
+	if h.MetaTerminate != nil {
+		h.MetaTerminate(m, reason)
+	}
+	m.once.Do(func() { close(m.term) })
 }
